@@ -11,9 +11,35 @@ def run(rep, tier, seed):
     if not a["ok"]:
         raise tlc.MachineryError("leg A: MC_Path violated on the shipped specification\n" + a["out"][-2500:])
     np_, nd = pathdrv.run_path_check(rep, tier, seed, modifiers=True, label="C04")
+    # modifiers belong to the path they were applied to: a path JOINED from it (`p / q`, also with the empty path) is a
+    # new path without them (Ext.tla ConcatPath), judged by the Trace_Ext acceptor
+    import random
+    from harness import extras
+    rng = random.Random(seed + 404)
+    cevs = [e for e in extras.make_events(rng, 2400 if tier == "quick" else 30000) if e["op"] == "concat"]
+    for j, e in enumerate(cevs, 1):
+        e["id"] = j
+    cres = tlc.accept("Trace_Ext", "Trace_Ext.cfg", cevs)
+    rep.add_tlc(cres, "B:Trace_Ext(concat)")
+    rep.traces += len(cevs)
+    for m in cres["mismatches"]:
+        e = cevs[m["id"] - 1]
+        rep.reject({"clause": m["clause"], "entry": "concat", "outcome": e["outcome"], "dt": e["p"]["dt"], "mt": e["p"]["mt"]},
+                   {"recipe": {"concat": True}, "event": e})
+    rep.extra["concat_events"] = len(cevs)
     rep.rule = (f"leg B: {np_} small paths x {nd} documents x datum x multiplicity modifiers x both orders, with and "
                 "without paths, + seeded random; clauses Truthful / PathsDistinct / WithoutPathsSameValues / "
                 "ResultWithPathsIsWalk / MultiplicityRefusedOnConcrete; non-trivial = non-empty selection or a raise")
 
 
-replay = pathdrv.replay
+def replay(rep, case):
+    if case["case"].get("recipe", {}).get("concat"):
+        e = case["case"]["event"]
+        print("recorded concatenation event (re-run the check to reproduce)")
+        rep.reject({"clause": "ConcatIsPartsConcatenated", "entry": "concat", "outcome": e.get("outcome"), "dt": "", "mt": ""}, case["case"])
+        rep.states += 1
+        rep.transitions += 1
+        rep.traces += 1
+        rep.sample({"recorded": "concat"})
+        return
+    return pathdrv.replay(rep, case)
